@@ -348,7 +348,8 @@ class ContextInit(FnSpec):
     properties = ("C02", "C04", "C12", "C13")
     param_types = {"parent": OPT(INST("Context"))}
     modifies = frozenset({"fld:_state", "fld:_teardown_callbacks", "fld:_child_contexts", "fld:_parent", "fld:_resources",
-                          "fld:_resource_factories", "fld:_task_group", "g:ctx_init", "g:owner"})
+                          "fld:_resource_factories", "fld:_task_group", "g:ctx_init", "g:owner", "g:td_reg"})
+    uses_invariants = ("I-td:teardown-lists-are-token-stacks", "I-stk:exit-stack-as-pushed-by-aenter")
     may_raise = False
 
     def requires(self, F):
@@ -375,6 +376,9 @@ class ContextInit(FnSpec):
         st.heap["g:ctx_init"] = z3.Store(st.heap["g:ctx_init"], s, True)
         for f, tag in (("_resources", OWN_R), ("_resource_factories", OWN_F), ("_teardown_callbacks", OWN_T), ("_child_contexts", OWN_C)):
             st.heap["g:owner"] = z3.Store(st.heap["g:owner"], Val.a(st.fld(f, s)), Val.pair(vref(s), tag))
+        # no teardown callback has been registered yet: token counter of the fresh list starts at 0
+        if "g:td_reg" in st.heap:
+            st.heap["g:td_reg"] = z3.Store(st.heap["g:td_reg"], Val.a(st.fld("_teardown_callbacks", s)), z3.IntVal(0))
 
     def ensures(self, F):
         s = F.addr("self")
@@ -404,6 +408,8 @@ class ContextInit(FnSpec):
             ("snapshot:all-factories", z3.Implies(par != VNone, z3.And(F.new.d_hasarr(fn_) == F.old.d_hasarr(Fa(F.old, pa)),
                                                                        F.new.d_getarr(fn_) == F.old.d_getarr(Fa(F.old, pa))))),
             ("inherits-task-group", z3.Implies(par != VNone, F.new.fld("_task_group", s) == F.old.fld("_task_group", pa))),
+            ("no-tokens-yet", z3.And(z3.Select(F.new.g("g:td_reg"), T(F.new, s)) == 0,
+                                     z3.ForAll([x], z3.Implies(x < F.old.alloc, F.same_at("g:td_reg", x)), patterns=[z3.Select(F.new.h("g:td_reg"), x)]))),
             ("owner-tags", z3.And(z3.Select(F.new.g("g:owner"), rn) == Val.pair(vref(s), OWN_R),
                                   z3.Select(F.new.g("g:owner"), fn_) == Val.pair(vref(s), OWN_F),
                                   z3.Select(F.new.g("g:owner"), T(F.new, s)) == Val.pair(vref(s), OWN_T),
